@@ -10,7 +10,7 @@ explicit policy clauses of the statement are checked directly.
 import gc
 
 from traits.api import (Any, Constant, Event, HasPrivateTraits,
-                        HasStrictTraits, HasTraits, Int, ReadOnly, Str,
+                        HasStrictTraits, HasTraits, Int, List, ReadOnly, Str,
                         TraitError, Undefined)
 
 LEVEL = "model_checking"
@@ -26,7 +26,7 @@ EXPLANATION = ("direct exploration with fresh classes per execution; "
                "reference = independent resolver + twin hierarchy with the "
                "governing trait declared explicitly + policy clauses")
 BOUNDS = {"quick": "3 base kinds x 15 names, three instances (base, late "
-                   "subclass, multiple-inheritance subclass), depth 4 with "
+                   "subclass, multiple-inheritance subclass), depth 3 with "
                    "dedup", "thorough": "depth 5"}
 ASSUMPTIONS = ["dunder names are reserved by documented design and kept out "
                "of the alphabet", "wildcard prefixes as the code documents "
@@ -104,6 +104,12 @@ def events():
                 ("set", who, None),
                 ("del", who), ("add_trait", who), ("remove_trait", who)]
     evs += [("add_trait2", "b"), ("add_trait2", "m")]
+    # an instance List trait brings a companion "<name>_items" event trait;
+    # removing the List trait removes the companion too
+    evs += [("add_trait_list", "b"), ("get_items", "b"), ("set_items", "b")]
+    # the base class gains a wildcard its (already defined) subclass
+    # declares itself: the subclass's own rule stays
+    evs.append(("base_adds_wildcard",))
     evs.append(("define_sub",))
     return evs
 
@@ -145,6 +151,12 @@ class Side:
             self.Sub = self.mk_sub()
             self.s = self.Sub()
             return ("ok",)
+        if k == "base_adds_wildcard":
+            try:
+                self.Base.add_class_trait("x_l_", Int)
+            except Exception as e:
+                return ("other", type(e).__name__)
+            return ("ok",)
         o = self.obj(ev[1])
         try:
             if k == "get":
@@ -159,6 +171,16 @@ class Side:
             if k == "add_trait":
                 o.add_trait(n, Str("inst"))
                 self.inst[ev[1]] = True
+                return ("ok",)
+            if k == "add_trait_list":
+                o.add_trait(n, List(Int))
+                self.inst[ev[1]] = True
+                return ("ok",)
+            if k == "get_items":
+                v = getattr(o, n + "_items")
+                return ("value", repr(v))
+            if k == "set_items":
+                setattr(o, n + "_items", 5)
                 return ("ok",)
             if k == "add_trait2":
                 # a second definition for the same name, no removal between
@@ -199,8 +221,14 @@ class Model:
 def enabled(model, ev):
     if ev[0] == "define_sub":
         return not model.has_sub
+    if ev[0] == "base_adds_wildcard":
+        return model.has_sub and not getattr(model, "base_wild", False)
     if ev[1] == "s" and not model.has_sub:
         return False
+    if ev[0] == "add_trait_list":
+        return not model.inst[ev[1]]
+    if ev[0] in ("get_items", "set_items"):
+        return True
     if ev[0] == "add_trait":
         return not model.inst[ev[1]]
     if ev[0] == "add_trait2":
@@ -216,9 +244,12 @@ def check_policy(ctx, model, ev, out, bad):
     if k in ("define_sub",):
         ctx.outcome("subclass-defined-late")
         return
-    if k == "add_trait2":
-        return
+    if k in ("add_trait2", "add_trait_list", "get_items", "set_items",
+             "base_adds_wildcard"):
+        return          # (decided by the twin comparison)
     how, f = model.gov(ev[1])
+    if how == "instance" and f == "List":
+        return
     name = model.name
     if how == "instance" and f == "Int":
         ctx.outcome("instance-trait-governed")
@@ -326,7 +357,7 @@ def run_history(ctx, kind, name, hist):
         nviol = len(ctx.violations)
         if ev[0] == "define_sub":
             model.has_sub = True
-        elif not model.has_sub and ev[1] == "b" and \
+        elif not model.has_sub and len(ev) > 1 and ev[1] == "b" and \
                 ev[0] in ("get", "set", "del"):
             model.late = True
         if ev[0] == "remove_trait":
@@ -347,6 +378,10 @@ def run_history(ctx, kind, name, hist):
             model.inst[ev[1]] = "Str"
         if ev[0] == "add_trait2":
             model.inst[ev[1]] = "Int"
+        if ev[0] == "add_trait_list":
+            model.inst[ev[1]] = "List"
+        if ev[0] == "base_adds_wildcard":
+            model.base_wild = True
         if ev[0] == "remove_trait":
             model.inst[ev[1]] = False
             model.ro_written[ev[1]] = False
@@ -363,7 +398,7 @@ def run_history(ctx, kind, name, hist):
            model.inst["b"], model.inst["s"], model.inst["m"], model.has_sub,
            sorted(real.m.__dict__.items(), key=repr),
            model.ro_written["b"], model.ro_written["s"],
-           model.ro_written["m"],
+           model.ro_written["m"], getattr(model, "base_wild", False),
            name in real.Base.__dict__.get("__class_traits__", {}),
            name in real.Base.__base_traits__)
     return True, repr(key)
@@ -376,7 +411,7 @@ def shards(tier):
 def run_shard(ctx, shard, tier):
     kind, name = shard["kind"], shard["name"]
     evs = events()
-    depth = 4 if tier == "quick" else 5
+    depth = 3 if tier == "quick" else 5
     frontier = [[]]
     n_exec = 0
     for d in range(1, depth + 1):
